@@ -12,7 +12,8 @@ PathDim == { <<"lit:/string_literal">>, <<"local">>, <<"pkg">>, <<"imported">>, 
 HandlerDim == {"method", "ptrmethod", "func", "importedfunc", "importedmethod", "literal"}
 InputDim == {"none", "int", "struct", "slice", "ptr"}
 QueryDim == { <<>>, <<"plain:q1">>, <<"plain:q1", "plain:q-2">>, <<"bool:my-bool">>, <<"int64:my-int", "bool:flag">>,
-              <<"generic:param-name">>, <<"plain:a", "generic:id", "int64:n">>, <<"pkggeneric:id-item">>, <<"plain:b", "pkggeneric:other-id">> }
+              <<"generic:param-name">>, <<"plain:a", "generic:id", "int64:n">>, <<"pkggeneric:id-item">>, <<"plain:b", "pkggeneric:other-id">>,
+              <<"plain:q", "late:page", "int64:sort">>, <<"late:only">> }
 FormDim == { [values |-> <<>>, file |-> "", json |-> "", jsonkind |-> ""], [values |-> <<"value_1">>, file |-> "", json |-> "", jsonkind |-> ""],
              [values |-> <<"v1", "v2">>, file |-> "upload", json |-> "", jsonkind |-> ""], [values |-> <<>>, file |-> "file_2", json |-> "", jsonkind |-> ""],
              [values |-> <<>>, file |-> "", json |-> "json-field", jsonkind |-> "struct"], [values |-> <<"v">>, file |-> "f", json |-> "meta", jsonkind |-> "struct"],
